@@ -198,6 +198,64 @@ def run_variant(job):
     return {"mismatch": mismatch, "info": info}
 
 
+def run_mf_pair(job):
+    """Two behaviours (same N, dkmax, add_correlation_time; different coupling operators / dimensions) as the
+    two systems of ONE MeanFieldTempo with field-independent Hamiltonians and a zero field equation: each
+    system must evolve exactly as its own plain TEMPO (its own specification state)."""
+    import oqupy
+    ca, cb = job["cases"]
+    var, seed = job["variant"], job["seed"]
+    dt, start = 0.25, var.get("start", 0.5)
+    n_steps, k, a = ca["N"], ca["K"], ca["A"]
+    omega0 = 0.7
+    mismatch = []
+    try:
+        systems, baths, rhos, exps, rots = [], [], [], [], []
+        for j, case in enumerate((ca, cb)):
+            d = len(case["o"])
+            weights = probes.probe_weights(seed + 101 * j, 2 * n_steps + 4)
+            sd = probes.make_probe_sd(weights, dt)
+            rot = probes.haar_unitary(d, seed, "mfpair", j) if var.get("rot") else np.eye(d, dtype=complex)
+            rho_eig = probes.generic_rho(d, seed + j)
+            shifts = list(case["sh"])
+            commuting = all(x == 0 for x in shifts)
+            hams = []
+            for sft in shifts:
+                h = probes.shift_hamiltonian(d, sft, dt / 2) + (omega0 * np.diag(np.array(EN[:d], float)) if commuting else 0)
+                hams.append(rot @ h @ rot.conj().T)
+
+            def ham(t, fld, _h=hams):
+                half = int(np.floor((t - start) / (dt / 2) + 1e-9))
+                return _h[half % len(_h)]
+            systems.append(oqupy.TimeDependentSystemWithField(ham))
+            baths.append(oqupy.Bath(rot @ np.diag(np.array(case["o"], float)) @ rot.conj().T, sd))
+            rhos.append(rot @ rho_eig @ rot.conj().T)
+            exps.append([rho_eig] + expected_states(case, weights, rho_eig, dt, omega0, commuting))
+            rots.append(rot)
+        kw = {}
+        if k != KNONE:
+            kw["dkmax"] = k
+        if a == AINF:
+            kw["add_correlation_time"] = np.inf
+        elif a != ANONE:
+            kw["add_correlation_time"] = a * dt
+        params = oqupy.TempoParameters(dt=dt, epsrel=1e-15, subdiv_limit=None, **kw)
+        mfs = oqupy.MeanFieldSystem(systems, field_eom=lambda t, st, f: 0.0)
+        mft = oqupy.MeanFieldTempo(mfs, baths, params, rhos, 0.25 - 0.5j, start, unique=bool(var.get("unique")))
+        dyn = mft.compute(start + n_steps * dt + dt / 4, progress_type="silent")
+        for j in range(2):
+            got = np.array(dyn.system_dynamics[j].states)
+            for m in range(n_steps + 1):
+                g = rots[j].conj().T @ got[m] @ rots[j]
+                err = np.max(np.abs(g - exps[j][m]))
+                if not err < TOL:
+                    mismatch.append({"what": "state", "system": j, "step": m, "err": float(err)})
+                    break
+    except Exception as ex:  # pylint: disable=broad-except
+        mismatch.append({"what": "exception", "detail": "%s: %s" % (type(ex).__name__, str(ex)[:160])})
+    return {"mismatch": mismatch}
+
+
 def case_id(case, variant):
     return {"alg": case["alg"], "N": case["N"], "K": case["K"], "A": case["A"],
             "o": case["o"], "sh": case["sh"], "variant": variant}
